@@ -1,24 +1,37 @@
 ------------------------------ MODULE CliDecode ------------------------------
 (* What the decompressing tools deliver, as a function of what liblzma       *)
 (* reports for the input.  Transcribes                                       *)
-(*   src/xz/coder.c   coder_init() (format detection, flags, pass-through),  *)
-(*                    coder_normal() (write what was decoded even on error,  *)
-(*                    LZMA_UNSUPPORTED_CHECK is a warning, trailing input    *)
-(*                    after LZMA_STREAM_END), coder_run()/io_close() (target *)
-(*                    unlinked unless success, source removed on success)    *)
+(*   src/xz/coder.c   coder_init() (format detection, flags, pass-through,   *)
+(*                    the loop that turns LZMA_UNSUPPORTED_CHECK returned    *)
+(*                    while the first headers are decoded into warnings),    *)
+(*                    coder_normal() (LZMA_UNSUPPORTED_CHECK from a later    *)
+(*                    Stream is a warning and coding continues; what was     *)
+(*                    decoded is written even on error; after                *)
+(*                    LZMA_STREAM_END of a .lzma / raw stream: input left in *)
+(*                    the buffer, or else a one-byte look-ahead read, is     *)
+(*                    trailing garbage), coder_run()/io_close()/io_open_dest *)
+(*                    (stdin => stdout; target unlinked unless success;      *)
+(*                    source removed on success)                             *)
 (*   src/xzdec/xzdec.c uncompress() for xzdec and lzmadec                    *)
 (* The library's behaviour on the input is summarised by `lib`:              *)
-(*   det      "xz" | "lzma" | "lzip" | "none": result of xz's own format     *)
-(*            sniffing (is_format_xz/lzma/lzip under the given --format)     *)
-(*   final    "END" (LZMA_STREAM_END) | "ERR" (any error code) of the        *)
-(*            decoder the tool uses, with the flags the tool uses            *)
-(*   unsup    number of LZMA_UNSUPPORTED_CHECK returns on the way            *)
-(*   trailing input left after LZMA_STREAM_END                               *)
-(* The decoded bytes themselves stay symbolic: "decoded" = every byte the    *)
-(* library produced before its final verdict.                                *)
+(*   det        "xz" | "lzma" | "lzip" | "raw" | "none": xz's format         *)
+(*              sniffing (is_format_* under the given --format)              *)
+(*   final      "END" (LZMA_STREAM_END) | "ERR" (any error code) of the      *)
+(*              decoder the tool uses, with the flags the tool uses          *)
+(*   unsupFirst number of LZMA_UNSUPPORTED_CHECK returns before any output   *)
+(*              (first Stream Header; seen by coder_init)                    *)
+(*   unsupLater number of such returns later (Streams after the first; seen  *)
+(*              by coder_normal)                                             *)
+(*   trailing   input left after LZMA_STREAM_END                             *)
+(*   atBoundary the decoder stopped consuming exactly at a multiple of the   *)
+(*              8192-byte input buffer (so strm.avail_in = 0 at that point)  *)
+(* src: how the input is given: "file" (named), "stdin_file" (< FILE),       *)
+(* "stdin_pipe".  The decoded bytes stay symbolic: "decoded" = every byte    *)
+(* the library produced before its final verdict.                            *)
 EXTENDS Naturals, Sequences, ExitStatus
 
 Tools == {"xz_dc", "xz_d", "xz_t", "xzdec", "lzmadec"}
+Srcs == {"file", "stdin_file", "stdin_pipe"}
 
 RECURSIVE Rep(_, _)
 Rep(x, n) == IF n = 0 THEN <<>> ELSE <<x>> \o Rep(x, n - 1)
@@ -26,21 +39,33 @@ Rep(x, n) == IF n = 0 THEN <<>> ELSE <<x>> \o Rep(x, n - 1)
 (* coder_init(): allow_trailing_input *)
 AllowTrailing(opt, lib) == opt.singleStream \/ lib.det = "lzip"
 
+(* coder_normal() after LZMA_STREAM_END, when trailing input is not allowed: *)
+(*   if (strm.avail_in == 0 && !src_eof) strm.avail_in = io_read(pair, 1);   *)
+(*   if (strm.avail_in == 0) success; else LZMA_DATA_ERROR                   *)
+AvailInAtEnd(lib) == lib.trailing /\ ~lib.atBoundary       \* rest of the current buffer
+LookAhead(lib) == IF AvailInAtEnd(lib) THEN FALSE           \* no read needed
+                  ELSE lib.trailing                          \* the extra read returns a byte iff there is one
+TrailingSeen(lib) == AvailInAtEnd(lib) \/ LookAhead(lib)
+
 Result(out, file, removed, msgs, opt) ==
     [stdout |-> out, file |-> file, srcRemoved |-> removed,
      exit |-> ExitCode(msgs, opt.nowarn), stderr |-> StderrUsed(msgs, opt.quiet)]
 
-Xz(tool, opt, lib) ==
+Xz(tool, opt, lib, src) ==
+    LET toStdout == tool = "xz_dc" \/ (tool = "xz_d" /\ src # "file")    \* io_open_dest_real(): stdin => stdout
+    IN
     IF lib.det = "none"
-    THEN IF tool = "xz_dc" /\ opt.force
-         THEN Result("input", FALSE, FALSE, <<>>, opt)                  \* CODER_INIT_PASSTHRU
-         ELSE Result("none", FALSE, FALSE, <<"error">>, opt)            \* File format not recognized
-    ELSE LET warns == Rep("warn", lib.unsup)
-             ok == lib.final = "END" /\ (lib.trailing => AllowTrailing(opt, lib))
-             msgs == IF ok THEN warns ELSE Append(warns, "error")
-         IN Result(IF tool = "xz_dc" THEN "decoded" ELSE "none",
-                   tool = "xz_d" /\ ok,
-                   tool = "xz_d" /\ ok /\ ~opt.singleStream,        \* args.c: --single-stream implies --keep
+    THEN IF tool = "xz_dc" /\ opt.force                                  \* opt_stdout && opt_force
+         THEN Result("input", FALSE, FALSE, <<>>, opt)                   \* CODER_INIT_PASSTHRU
+         ELSE Result("none", FALSE, FALSE, <<"error">>, opt)             \* File format not recognized
+    ELSE LET initWarns  == Rep("warn", lib.unsupFirst)                   \* coder_init(): while (... == LZMA_UNSUPPORTED_CHECK)
+             laterWarns == Rep("warn", lib.unsupLater)                   \* coder_normal(): stop == false
+             ok == lib.final = "END" /\ (AllowTrailing(opt, lib) \/ ~TrailingSeen(lib))
+             msgs == IF ok THEN initWarns \o laterWarns ELSE Append(initWarns \o laterWarns, "error")
+             file == tool = "xz_d" /\ src = "file" /\ ok
+         IN Result(IF toStdout THEN "decoded" ELSE "none",
+                   file,
+                   file /\ ~opt.singleStream,                            \* args.c: --single-stream implies --keep
                    msgs, opt)
 
 (* xzdec: lzma_stream_decoder(LZMA_CONCATENATED), no LZMA_TELL_* flags: an   *)
@@ -48,14 +73,15 @@ Xz(tool, opt, lib) ==
 Xzdec(opt, lib) ==
     [stdout |-> "decoded", file |-> FALSE, srcRemoved |-> FALSE,
      exit |-> IF lib.final = "END" THEN 0 ELSE 1, stderr |-> lib.final # "END"]
-(* lzmadec: lzma_alone_decoder(), trailing garbage is an error               *)
+(* lzmadec: lzma_alone_decoder(); trailing garbage:                          *)
+(*   strm->avail_in != 0 || fread(in_buf, 1, 1, file) != 0 || !feof(file)    *)
 Lzmadec(opt, lib) ==
-    LET ok == lib.final = "END" /\ ~lib.trailing IN
+    LET ok == lib.final = "END" /\ ~TrailingSeen(lib) IN
     [stdout |-> "decoded", file |-> FALSE, srcRemoved |-> FALSE,
      exit |-> IF ok THEN 0 ELSE 1, stderr |-> ~ok]
 
-Run(tool, opt, lib) ==
-    CASE tool \in {"xz_dc", "xz_d", "xz_t"} -> Xz(tool, opt, lib)
+Run(tool, opt, lib, src) ==
+    CASE tool \in {"xz_dc", "xz_d", "xz_t"} -> Xz(tool, opt, lib, src)
       [] tool = "xzdec" -> Xzdec(opt, lib)
       [] tool = "lzmadec" -> Lzmadec(opt, lib)
 =============================================================================
